@@ -29,7 +29,11 @@ type Result struct {
 	// HarnessError marks trouble in the harness itself (never a violation).
 	HarnessError string `json:"harness_error,omitempty"`
 
-	Trace      []string       `json:"trace,omitempty"`
+	Trace []string `json:"trace,omitempty"`
+	// DetKey, when set, is what the determinism check compares instead of the schedule and
+	// trace hashes (an engine whose schedule cannot be the same in two processes although
+	// its results must be).
+	DetKey     string         `json:"det_key,omitempty"`
 	SchedHash  uint64         `json:"sched_hash"`
 	Nontrivial bool           `json:"nontrivial"`
 	Faults     map[string]int `json:"faults,omitempty"`
@@ -350,7 +354,11 @@ func Main(cfg Config, run RunFunc) {
 			os.WriteFile(fmt.Sprintf("%s/trace-%d.txt", td, idx), []byte(strings.Join(res.Trace, "\n")+"\n"), 0644)
 		}
 		if wantLog && idx < detN {
-			sum.Log = append(sum.Log, fmt.Sprintf("%d %016x %016x %s", idx, res.SchedHash, HashStrings(NormTrace(res.Trace)), res.Oracle))
+			if res.DetKey != "" {
+				sum.Log = append(sum.Log, fmt.Sprintf("%d results:%016x %s", idx, HashStrings([]string{res.DetKey}), res.Oracle))
+			} else {
+				sum.Log = append(sum.Log, fmt.Sprintf("%d %016x %016x %s", idx, res.SchedHash, HashStrings(NormTrace(res.Trace)), res.Oracle))
+			}
 		}
 		if res.Sample != nil && len(sum.Samples) < 3 {
 			sum.Samples = append(sum.Samples, res.Sample)
